@@ -32,7 +32,9 @@ ASSUMPTIONS = [
     "strings that do not begin with a moveto are path fragments the library documents (Path('L3,3')); they are judged "
     "on exception type, numeric points (a None start is accepted on the first segment only) and the follow-up "
     "operations, not on the reference's segment list",
-    "numbers that overflow a double (1e999) are judged on exception type and termination only",
+    "numbers that overflow a double (1e999) are judged on exception type and termination only; numbers whose fourth power "
+    "leaves the floating point range (beyond 1e75 or below 1e-75; the arc formulas multiply two squares) are judged on exception type, termination and "
+    "numeric stored points - an arc that cannot be represented may be rejected with ValueError where it stands",
     "prompt = at most 2 s CPU for inputs up to 1000 characters and time(10n) <= 50 x time(n) + 50 ms on long inputs; "
     "an overrun is re-measured three times before it counts",
 ]
@@ -192,6 +194,17 @@ def overflowing_number(text):
     return False
 
 
+def extreme_number(text):
+    """a number whose fourth power leaves the floating point range (|v| > 1e75 or 0 < |v| < 1e-75)"""
+    if "e" not in text and "E" not in text and len(text) < 150:
+        return False
+    for m in NUM_RE.finditer(text):
+        v = abs(float(m.group()))
+        if v > 1e75 or 0.0 < v < 1e-75:
+            return True
+    return False
+
+
 def first_letter(text):
     for ch in text:
         if ch in pathref.WSP or ch == ",":
@@ -255,6 +268,11 @@ def check(case):
                     known_curve = True
                     continue
                 return o.violation("non-numeric-point:%s" % lib.kind_of(seg), "after parsing %r segment %d (%s) has %s = %r" % (text, i, lib.kind_of(seg), name, pnt))
+    if extreme_number(text):
+        # geometry with such numbers overflows or underflows in the products of squares of the arc formulas: judged on the exception type and on
+        # the stored points only (an arc that cannot be represented may be rejected with ValueError where it stands)
+        o.label("class:extreme-magnitude")
+        return o.ok(nontrivial=False)
     # ---- clause: follow-up operations ----------------------------------------------------------------------
     Sfollow = max(1.0, lib.scale_of([[lib.xy(s.start), lib.xy(s.end)] for s in path]))
     for name in FOLLOWUPS:
